@@ -309,6 +309,31 @@ def table_o_shape(facts, rep, rule, w):
                                             "fs::metadata", "Path::metadata", "Path::is_dir", "Metadata::is_dir", "fs::symlink_metadata"):
                                         by_stat = True
                         kinds[v] = (by_stat and has_is_dir, st.line)
+            # ... or inside a private helper that is handed the probe's answer (`exists_kind(is_dir)`): its conditions, with the
+            # helper's parameters replaced by what the call passes
+            for s_ in inter.sites(cb):
+                hb = inter.local_callee(s_)
+                if hb is None or hb.vis == "pub" or (hb.impl and hb.impl.get("trait")) or hb.file != b.file or hb.id == b.id:
+                    continue
+                acts = [tr.operand(a) for a in s_.args]
+                for hcb in inter.code_bodies(hb):
+                    htr = get_tracer(facts, hcb)
+                    for blk in hcb.blocks:
+                        if blk.cleanup:
+                            continue
+                        for st in blk.stmts:
+                            if st.kind == "assign" and st.rv.kind == "agg" and st.rv.agg.get("adt") == "error::VfsErrorKind":
+                                v = st.rv.agg["variant"]
+                                by_stat = False
+                                for g in htr.guards_at(blk.idx):
+                                    if g[0] in ("bool", "variant"):
+                                        gt = inter.subst(g[1], {hb.id, hcb.id}, acts)
+                                        for x in walk(gt):
+                                            if x[0] == "call" and isinstance(x[1], str) and short(x[1]) in (
+                                                    "fs::metadata", "Path::metadata", "Path::is_dir", "Metadata::is_dir", "fs::symlink_metadata"):
+                                                by_stat = True
+                                if v not in kinds or not kinds[v][0]:
+                                    kinds[v] = (by_stat and has_is_dir, st.line)
         # the probe only classifies: if it fails itself (dangling symlink, occupant removed meanwhile) the answer is still an
         # "exists" kind, never the probe's own error
         escaping = []
